@@ -47,6 +47,7 @@ type GenOp struct {
 	OperationName string                 `json:"operationName,omitempty"`
 	Kind          string                 `json:"kind"`
 	Features      []string               `json:"features"`
+	Of            string                 `json:"variant_of,omitempty"` // the text this operation is a near-copy of
 }
 
 type opGen struct {
